@@ -360,6 +360,16 @@ def w_voice_emb(task):
                     continue
                 if out != full:
                     acc.violation("voice_emb_burst_altered", {**case, "in": full, "out": out}, "voice burst with EMB does not survive parse-then-serialise bit for bit")
+                elif emb is embs[0] or emb is embs[-1]:
+                    # the receiver labels voice bursts A..F after parsing (Burst.set_is_voice): a label is not part of the burst
+                    from okdmr.dmrlib.etsi.layer2.elements.voice_bursts import VoiceBursts as _VB
+                    for lab in (_VB.VoiceBurstA, _VB.VoiceBurstB, _VB.VoiceBurstF, _VB.Unknown):
+                        try:
+                            b4 = Burst.from_bits(bitarray(full), BurstTypes.Vocoder).set_is_voice(lab)
+                            if b4.as_bits().to01() != full:
+                                acc.violation("labelled_voice_burst_serialises_differently", {**case, "label": lab.name})
+                        except Exception as ex:  # noqa: BLE001
+                            acc.violation("exception_labelled_voice_burst:" + exc_sig(ex), {**case, "label": lab.name}, repr(ex))
                 if center not in SYNC_BITS:
                     if not b.has_emb or b.emb is None:
                         acc.violation("emb_not_recognised", case)
